@@ -2,6 +2,7 @@ package workflow
 
 import (
 	"context"
+	"encoding/json"
 	"errors"
 	"fmt"
 	"go.flow.arcalot.io/engine/internal/util"
@@ -115,6 +116,9 @@ func linkReferences(scope schema.Scope) (err error) {
 		}
 	}()
 	scope.ApplySelf()
+	if err := validateDefaults(scope); err != nil {
+		return err
+	}
 	return scope.ValidateReferences()
 }
 
@@ -194,7 +198,7 @@ func (e *executor) Prepare(workflow *Workflow, workflowContext map[string][]byte
 						"the output schema of the output %q does not contain its root object %q", outputID, scope.Root())
 				}
 				if err := linkReferences(scope); err != nil {
-					return nil, fmt.Errorf("the output schema of the output %q has an unresolved reference (%w)", outputID, err)
+					return nil, fmt.Errorf("the output schema of the output %q cannot be used (%w)", outputID, err)
 				}
 			}
 		}
@@ -268,7 +272,25 @@ func (e *executor) processInput(workflow *Workflow) (typedInput schema.Scope, er
 	// Accessing the root object panics if it is missing or its ID does not match. Find out now, not while the
 	// expressions of the workflow are being analyzed.
 	_ = typedInput.RootObject()
+	// Reading the default values panics if one of them is not valid JSON. The first run would find that out otherwise.
+	if err := validateDefaults(typedInput); err != nil {
+		return nil, &ErrInvalidWorkflow{fmt.Errorf("invalid workflow input section (%w)", err)}
+	}
 	return typedInput, nil
+}
+
+// validateDefaults checks that the default values of all properties of the objects in a scope are JSON documents,
+// which is the form they are read in when data is checked against the scope.
+func validateDefaults(scope schema.Scope) error {
+	for objectID, object := range scope.Objects() {
+		for propertyID, property := range object.Properties() {
+			defaultValue := property.Default()
+			if defaultValue != nil && !json.Valid([]byte(*defaultValue)) {
+				return fmt.Errorf("the default value of the property %q of the object %q is not valid JSON", propertyID, objectID)
+			}
+		}
+	}
+	return nil
 }
 
 func (e *executor) processSteps(
